@@ -47,7 +47,7 @@ type Outcome struct {
 type Handler func(Req) Resp
 
 const (
-	AddressSpaceLimit = 6 << 30
+	AddressSpaceLimit = 12 << 30
 	MaxStack          = 64 << 20
 )
 
@@ -106,8 +106,14 @@ func (m *Meter) Do(f func()) {
 	before := s[0].Value.Uint64()
 	defer func() {
 		metrics.Read(s)
-		if d := s[0].Value.Uint64() - before; d > m.Max {
+		d := s[0].Value.Uint64() - before
+		if d > m.Max {
 			m.Max = d
+		}
+		if d > 256<<20 {
+			// a legitimate near-2 GiB buffer must not stay alive into the next call: several of them
+			// would exhaust the address-space cap, which is meant for single absurd requests
+			debug.FreeOSMemory()
 		}
 	}()
 	f()
